@@ -11,6 +11,8 @@ import (
 	"runtime/debug"
 	"sort"
 	"strings"
+	"sync/atomic"
+	"time"
 )
 
 // Status of one finished execution.
@@ -113,6 +115,14 @@ type Sched struct {
 
 var S = &Sched{}
 
+// MaxGoroutines bounds the goroutines of one execution.
+var MaxGoroutines = 20000
+
+// ExecStart is the wall-clock start (unix nanoseconds) of the running
+// execution, 0 when none runs; worker processes watch it to turn an execution
+// that never ends (a loop without any scheduling point) into a report.
+var ExecStart atomic.Int64
+
 // TraceLog, if set, sees every observation as it is logged (debugging).
 var TraceLog func(string)
 
@@ -204,6 +214,11 @@ func Go(f func()) {
 	}
 	if s.killing {
 		return
+	}
+	if len(s.gs) >= MaxGoroutines {
+		// a subject that spawns goroutines without bound never reaches a scheduling
+		// point of its own: stop it here, as an ordinary panic of the subject
+		panic(fmt.Sprintf("runaway goroutine creation: more than %d goroutines in one execution", MaxGoroutines))
 	}
 	parent := s.cur
 	g := &G{id: s.nextG, wake: make(chan struct{})}
@@ -589,6 +604,7 @@ func RunOnce(main func(), prefix []int, maxSteps int, prune func(idx int, fp uin
 		h()
 	}
 
+	ExecStart.Store(time.Now().UnixNano())
 	Go(main)
 	g0 := s.gs[0]
 	g0.Name = "main"
@@ -622,6 +638,7 @@ func RunOnce(main func(), prefix []int, maxSteps int, prune func(idx int, fp uin
 	s.killing = false
 	s.cur = nil
 	s.chans = nil
+	ExecStart.Store(0)
 	return res
 }
 
